@@ -1,3 +1,53 @@
-From Verif Require Import Base.
-Theorem placeholder : True. Proof. exact I. Qed.
-Print Assumptions placeholder.
+(* C02 — handlers may call back over the link to any depth; slow handlers block nobody.
+   Proved here (part (a) of DESIGN.md §5 C02): on a healthy link the reader loops are back at their
+   read after every frame, having handed the frame to a fresh goroutine — whatever state any
+   handler, closure or caller goroutine is in (stalled, blocked, parked anywhere): the statements
+   quantify over all states [s] with no condition on other threads.
+   NOT proved (part (b)): deadlock freedom of arbitrary alternating call chains in the closed
+   two-registry system; decided by the nesting workloads of the check only (level note). *)
+From Verif Require Import Base Link LinkProofs.
+
+Theorem request_loop_never_waits_for_handlers :
+  forall calls s f arg,
+    tget (threads s) TReqLoop = Some QLReading -> memN 0%N (cancelled s) = false ->
+    f_unmarshal (flt s) = None ->
+    exists s', step_env calls s (EDeliverReq f arg) = Some s' /\
+               tget (threads s') TReqLoop = Some QLReading /\
+               tget (threads s') (TReq (nreq s)) = Some (QStart f arg) /\
+               nreq s' = S (nreq s).
+Proof.
+  intros calls s f arg Hr Hc Hf. unfold step_env. rewrite Hr. unfold take_fault. rewrite Hf. simpl.
+  unfold loop_again. simpl. rewrite Hc. eexists; split; [reflexivity|]. unfold setT; simpl.
+  split; [apply tget_tset_same|]. split; [|reflexivity].
+  rewrite tget_tset_other by discriminate. apply tget_tset_same.
+Qed.
+Print Assumptions request_loop_never_waits_for_handlers.
+
+Theorem response_loop_never_waits_for_callers :
+  forall calls s id x e,
+    tget (threads s) TResLoop = Some RLReading -> memN 0%N (cancelled s) = false ->
+    f_unmarshal (flt s) = None ->
+    exists s', step_env calls s (EDeliverRes id x e) = Some s' /\
+               tget (threads s') TResLoop = Some RLReading /\
+               tget (threads s') (TPub (npub s)) = Some (PEnter id x e).
+Proof.
+  intros calls s id x e Hr Hc Hf. unfold step_env. rewrite Hr. unfold take_fault. rewrite Hf. simpl.
+  unfold loop_again. simpl. rewrite Hc. eexists; split; [reflexivity|]. unfold setT; simpl.
+  split; [apply tget_tset_same|]. rewrite tget_tset_other by discriminate. apply tget_tset_same.
+Qed.
+Print Assumptions response_loop_never_waits_for_callers.
+
+(* a resolver hands its request to a handler goroutine of its own and exits: no handler runs on a
+   goroutine that anything else waits for *)
+Theorem each_request_gets_its_own_handler :
+  forall calls s n arg,
+    f_unmarshal (flt s) = None ->
+    exists s', step_callee calls s (TReq n) n (QStart FGated arg) = Some s' /\
+               tget (threads s') (THandler n) = Some (HStart FGated arg) /\
+               tget (threads s') (TReq n) = Some Finished.
+Proof.
+  intros calls s n arg Hf. unfold step_callee, take_fault. rewrite Hf. simpl.
+  eexists; split; [reflexivity|]. unfold setT; simpl. split; [apply tget_tset_same|].
+  rewrite tget_tset_other by discriminate. apply tget_tset_same.
+Qed.
+Print Assumptions each_request_gets_its_own_handler.
